@@ -406,8 +406,12 @@ func genScalarAPI(e *emitter, r *rng, n int) {
 	for _, l := range []limbs{{1, 0, 0, 0}, {2, 0, 0, 0}, {0, 1, 0, 0}, {0, 0, 0, 1}, {^uint64(0), 0, 0, 0}, {0, 0, 0, 1 << 63}} {
 		edge = append(edge, showL(l))
 	}
-	for _, l := range carryPropLimbs(bigN) {
-		edge = append(edge, showL(l))
+	seenA0 := map[uint64]bool{}
+	for _, l := range carryPropLimbs(bigN) { // one tuple per constructed low limb (the prefix is quadratic in this list)
+		if !seenA0[l[0]] {
+			seenA0[l[0]] = true
+			edge = append(edge, showL(l))
+		}
 	}
 	for _, a := range edge {
 		for _, op := range []string{"SC.addself", "SC.subself", "SC.mulself", "SC.sq", "SC.inv", "SC.powself", "SC.bits", "SC.enc", "SC.iszero", "SC.isone"} {
